@@ -92,6 +92,24 @@ def cmp_parts(ctx, func, test, pol=True):
     return op, l, r
 
 
+def cmp_raw(test, pol=True):
+    """cmp_parts without inlining temporaries."""
+    if isinstance(test, ast.UnaryOp) and isinstance(test.op, ast.Not):
+        return cmp_raw(test.operand, not pol)
+    if not isinstance(test, ast.Compare) or len(test.ops) != 1:
+        return None
+    op = OPSYM.get(type(test.ops[0]))
+    if op is None:
+        return None
+    l, r = text(test.left), text(test.comparators[0])
+    if not pol:
+        op = NEG[op]
+    if op in (">", ">="):
+        op = {">": "<", ">=": "<="}[op]
+        l, r = r, l
+    return op, l, r
+
+
 def conjuncts(test, pol=True):
     from .cfg import flatten_conj
     return flatten_conj(test, pol)
